@@ -305,12 +305,54 @@ func (p *printer) writeCompactList(v *lisp.LVal) {
 	}
 	p.writeString(string(bracket))
 	for i, child := range v.Cells {
-		if i > 0 {
+		if p.writeCompactLeadingComments(child) {
+			// comments end their line; the child starts the next one
+		} else if i > 0 && !p.atBOL {
 			p.writeString(" ")
 		}
 		p.writeCompactExpr(child)
+		p.writeCompactTrailingComment(child)
+	}
+	if m := fmtraw.Meta(v); !p.cfg.StripComments && m != nil {
+		for _, c := range m.InnerTrailingComments {
+			if !p.atBOL {
+				p.newline()
+			}
+			p.writeString(c.Text)
+			p.newline()
+		}
 	}
 	p.writeString(string(bracketClose(bracket)))
+}
+
+// writeCompactLeadingComments writes the comments in front of a list child,
+// each on a line of its own, and reports whether it wrote any.  A comment runs
+// to the end of its line, so compact output can only keep one by ending the
+// line after it.
+func (p *printer) writeCompactLeadingComments(v *lisp.LVal) bool {
+	m := fmtraw.Meta(v)
+	if p.cfg.StripComments || m == nil || len(m.LeadingComments) == 0 {
+		return false
+	}
+	for _, c := range m.LeadingComments {
+		if !p.atBOL {
+			p.newline()
+		}
+		p.writeString(c.Text)
+		p.newline()
+	}
+	return true
+}
+
+// writeCompactTrailingComment keeps a same-line comment after a list child.
+func (p *printer) writeCompactTrailingComment(v *lisp.LVal) {
+	m := fmtraw.Meta(v)
+	if p.cfg.StripComments || m == nil || m.TrailingComment == nil {
+		return
+	}
+	p.writeString(" ")
+	p.writeString(m.TrailingComment.Text)
+	p.newline()
 }
 
 // writeAtom writes an integer or float, using original text if available.
